@@ -5,11 +5,7 @@
 use super::*;
 use super::super::permission::verif_kani::{any_permission, any_set};
 
-/// `HashMap::new()` draws its seed through a getrandom syscall, which CBMC
-/// cannot execute; the seed is irrelevant to the property.
-pub(crate) fn fixed_random_state() -> std::hash::RandomState {
-    unsafe { std::mem::transmute::<(u64, u64), std::hash::RandomState>((0u64, 0u64)) }
-}
+use crate::config::verif_kani::fixed_random_state;
 
 fn handle(s: &'static str) -> MyHandle {
     MyHandle::new(s.into())
